@@ -175,6 +175,8 @@ pub struct CmdSpec {
     pub visible_short_flag_aliases: Vec<char>,
     pub visible_long_flag_aliases: Vec<String>,
     pub settings: Vec<Setting>,
+    /// settings switched on and off again by the builder (`.x(true).x(false)`) before anything else
+    pub toggled: Vec<Setting>,
     pub args: Vec<ArgSpec>,
     pub groups: Vec<GroupSpec>,
     pub subs: Vec<CmdSpec>,
@@ -553,30 +555,11 @@ pub fn build(s: &CmdSpec) -> Command {
     for x in &s.visible_long_flag_aliases {
         c = c.visible_long_flag_alias(x.clone());
     }
+    for st in &s.toggled {
+        c = apply_setting(apply_setting(c, *st, true), *st, false);
+    }
     for st in &s.settings {
-        c = match st {
-            Setting::ArgsConflictsWithSubcommands => c.args_conflicts_with_subcommands(true),
-            Setting::SubcommandPrecedenceOverArg => c.subcommand_precedence_over_arg(true),
-            Setting::InferLongArgs => c.infer_long_args(true),
-            Setting::InferSubcommands => c.infer_subcommands(true),
-            Setting::ArgsOverrideSelf => c.args_override_self(true),
-            Setting::DontDelimitTrailingValues => c.dont_delimit_trailing_values(true),
-            Setting::AllowMissingPositional => c.allow_missing_positional(true),
-            Setting::SubcommandNegatesReqs => c.subcommand_negates_reqs(true),
-            Setting::SubcommandRequired => c.subcommand_required(true),
-            Setting::ArgRequiredElseHelp => c.arg_required_else_help(true),
-            Setting::DisableHelpFlag => c.disable_help_flag(true),
-            Setting::DisableHelpSubcommand => c.disable_help_subcommand(true),
-            Setting::DisableVersionFlag => c.disable_version_flag(true),
-            Setting::Multicall => c.multicall(true),
-            Setting::NoBinaryName => c.no_binary_name(true),
-            Setting::PropagateVersion => c.propagate_version(true),
-            Setting::IgnoreErrors => c.ignore_errors(true),
-            Setting::NextLineHelp => c.next_line_help(true),
-            Setting::FlattenHelp => c.flatten_help(true),
-            Setting::HidePossibleValues => c.hide_possible_values(true),
-            Setting::DontCollapseArgsInUsage => c.dont_collapse_args_in_usage(true),
-        };
+        c = apply_setting(c, *st, true);
     }
     if let Some(v) = &s.version {
         c = c.version(v.clone());
@@ -668,4 +651,30 @@ pub fn build_valid(s: &CmdSpec) -> Result<Command, mccore::PanicInfo> {
         // about definitions as the user wrote them, so hand back a fresh, unbuilt one.
         build(s)
     })
+}
+
+fn apply_setting(c: clap::Command, st: Setting, on: bool) -> clap::Command {
+    match st {
+        Setting::ArgsConflictsWithSubcommands => c.args_conflicts_with_subcommands(on),
+        Setting::SubcommandPrecedenceOverArg => c.subcommand_precedence_over_arg(on),
+        Setting::InferLongArgs => c.infer_long_args(on),
+        Setting::InferSubcommands => c.infer_subcommands(on),
+        Setting::ArgsOverrideSelf => c.args_override_self(on),
+        Setting::DontDelimitTrailingValues => c.dont_delimit_trailing_values(on),
+        Setting::AllowMissingPositional => c.allow_missing_positional(on),
+        Setting::SubcommandNegatesReqs => c.subcommand_negates_reqs(on),
+        Setting::SubcommandRequired => c.subcommand_required(on),
+        Setting::ArgRequiredElseHelp => c.arg_required_else_help(on),
+        Setting::DisableHelpFlag => c.disable_help_flag(on),
+        Setting::DisableHelpSubcommand => c.disable_help_subcommand(on),
+        Setting::DisableVersionFlag => c.disable_version_flag(on),
+        Setting::Multicall => c.multicall(on),
+        Setting::NoBinaryName => c.no_binary_name(on),
+        Setting::PropagateVersion => c.propagate_version(on),
+        Setting::IgnoreErrors => c.ignore_errors(on),
+        Setting::NextLineHelp => c.next_line_help(on),
+        Setting::FlattenHelp => c.flatten_help(on),
+        Setting::HidePossibleValues => c.hide_possible_values(on),
+        Setting::DontCollapseArgsInUsage => c.dont_collapse_args_in_usage(on),
+    }
 }
